@@ -42,6 +42,19 @@ CLAIMED["C16"] = (
     "DESIGN.md section 6, C16",
 )
 
+CLAIMED["C13"] = (
+    "Coq theorems for every n and every (symmetric) relation: the groups partition 0..n-1 (Permutation), are non-empty, keep "
+    "input order, and two events share a group iff they are linked in the reflexive-symmetric-transitive closure of the "
+    "similarity relation (invariant by induction over the processed edges of a label-merging pass); the comparison function "
+    "is queried exactly on the pairs i<j<n, once each. Model tied to /repo/src by exhaustive enumeration of all graphs on "
+    "<=5 (thorough <=6) nodes plus random larger graphs, with the real function's recorded call list compared.",
+    "Trusted: Coq kernel/vm_compute; scipy connected_components is replaced in the model by a proved label-merging pass and "
+    "validated through the final grouping; grouping by label modelled declaratively (first-occurrence order) and also as the "
+    "Python loop, both compared with the real output on every case.",
+    "Rocq/Coq proof (induction over edges, closure lemmas) + exhaustive/random model/implementation correspondence",
+    "DESIGN.md section 6, C13",
+)
+
 NOT_YET = {}
 
 
